@@ -204,7 +204,10 @@ class MPRNLRI(Attribute, Family):
                 raise Notify(
                     3, 0, 'unsupported family {} {} with extended next-hop capability enabled'.format(afi, safi)
                 )
-            length, _ = Family.size[(nh_afi, safi)]
+            # only the families which have an entry for the other address family change their lengths
+            # (l2vpn, bgp-ls .. have none: the lookup raised KeyError for any UPDATE of such a family on an RFC 8950 session)
+            if (nh_afi, safi) in Family.size:
+                length, _ = Family.size[(nh_afi, safi)]
 
         if len_nh not in length:
             raise Notify(
